@@ -358,6 +358,13 @@ def rule_r3_r4(facts, rep):
         for nm, tab, fn_ in (("change_key", t_ck, ck), ("normalize", t_nz, nz)):
             key = "%s|arm:%s|recurses-like-indexer" % (fn_.def_, vs_)
             got = tab.get(vs_, (False, None))[0]
+            if nm == "normalize" and vs_ == "Image":
+                # C06: formatting keeps the text of images, so the title refresh deliberately does not enter an image's description
+                if got:
+                    rep.violation(r4, key, "GraphInline::normalize rewrites the description of images (formatting must keep an image's text)", fn_.loc)
+                else:
+                    rep.ok(r4, key, "normalize leaves image descriptions alone (C06)", fn_.loc, nontrivial=False)
+                continue
             if idx and not got:
                 rep.violation(r4, key, "links nested in a %s are indexed as references (GraphInline::ref_keys recurses into it) but GraphInline::%s does not recurse into it: "
                               "such links are %s" % (vs_, nm, "not rewritten by a rename" if nm == "change_key" else "never refreshed"), fn_.loc)
